@@ -91,7 +91,7 @@ static void point(const ST* t, int q, std::vector<double>& x){
 #ifdef PHOTOSPLINE_INCLUDES_SPGLAM
 struct FitProblem {
   photospline::ndsparse data; std::vector<double> coords, weights, kn, sm; std::vector<uint32_t> so, po;
-  FitProblem(int npts, int ord, int nk, int bad) : data(npts, 1), coords(npts), weights(npts, 1.0), kn(nk), sm(1, 1e-6), so(1, ord), po(1, 2) {
+  FitProblem(int npts, int ord, int nk, int bad) : data(npts, 1), coords(npts), weights(npts, 1.0), kn(nk), sm(1, 1e-6), so(1, ord), po(1, ord < 2 ? ord : 2) {
     for(int i = 0; i < npts; i++){
       coords[i] = i / double(npts - 1);
       unsigned int idx = i; data.insertEntry(std::sin(3 * coords[i]) + 2 + 0.01 * ord + 0.001 * nk, &idx);
@@ -173,11 +173,11 @@ static int run_cases(const char* path, long skip){
       std::string pc = w[3] == "-" ? scratch + ".c.fits" : w[3], pt = w[3] == "-" ? scratch + ".t.fits" : w[3];
       remove(pc.c_str()); remove(pt.c_str());
       c << "rc=" << writesplinefitstable(pc.c_str(), &H[h]) << " file=" << filehash(pc);
-      int trc = 0; try{ T[h]->write_fits(pt); }catch(std::exception& e){ trc = 1; } t << "rc=" << trc << " file=" << filehash(pt);
+      int trc = 0; try{ if(!T[h]) trc = 1; else T[h]->write_fits(pt); }catch(std::exception& e){ trc = 1; } t << "rc=" << trc << " file=" << filehash(pt);
     }
     else if(kind == "getkey"){
       const char* r = splinetable_get_key(&H[h], w[3].c_str()); c << "ptr=" << (r ? std::string(r) : std::string("NULL"));
-      const char* r2 = NULL; try{ r2 = T[h]->get_aux_value(w[3].c_str()); }catch(...){} t << "ptr=" << (r2 ? std::string(r2) : std::string("NULL"));
+      const char* r2 = NULL; try{ if(T[h]) r2 = T[h]->get_aux_value(w[3].c_str()); }catch(...){} t << "ptr=" << (r2 ? std::string(r2) : std::string("NULL"));
       std::string cs = c.str(), ts = t.str(); for(char& ch : cs) if(ch == ' ') ch = '_'; for(char& ch : ts) if(ch == ' ') ch = '_';
       c.str(cs); c.seekp(0, std::ios::end); t.str(ts); t.seekp(0, std::ios::end);
     }
@@ -185,21 +185,21 @@ static int run_cases(const char* path, long skip){
       if(w[3] == "i"){
         int v = -777, v2 = -777; int rc = splinetable_read_key(&H[h], SPLINETABLE_INT, w[4].c_str(), &v);
         c << "rc=" << rc << " val=" << v;
-        bool ok = false; try{ ok = T[h]->read_key(w[4].c_str(), v2); }catch(...){ ok = false; } t << "rc=" << (ok ? 0 : 1) << " val=" << v2;
+        bool ok = false; try{ ok = T[h] && T[h]->read_key(w[4].c_str(), v2); }catch(...){ ok = false; } t << "rc=" << (ok ? 0 : 1) << " val=" << v2;
       }else{
         double v = -777, v2 = -777; int rc = splinetable_read_key(&H[h], SPLINETABLE_DOUBLE, w[4].c_str(), &v);
         c << "rc=" << rc << " val=" << hexd(v);
-        bool ok = false; try{ ok = T[h]->read_key(w[4].c_str(), v2); }catch(...){ ok = false; } t << "rc=" << (ok ? 0 : 1) << " val=" << hexd(v2);
+        bool ok = false; try{ ok = T[h] && T[h]->read_key(w[4].c_str(), v2); }catch(...){ ok = false; } t << "rc=" << (ok ? 0 : 1) << " val=" << hexd(v2);
       }
     }
     else if(kind == "writekey"){  // writekey h i|d key value
       std::string key = w[4]; for(char& ch : key) if(ch == '~') ch = '\x01';   // '~' stands for a non-printable character
       if(w[3] == "i"){
         int v = atoi(w[5].c_str()); c << "rc=" << splinetable_write_key(&H[h], SPLINETABLE_INT, key.c_str(), &v);
-        int trc = 0; try{ T[h]->write_key(key.c_str(), v); }catch(std::exception& e){ trc = 1; } t << "rc=" << trc;
+        int trc = 0; try{ if(!T[h]) trc = 1; else T[h]->write_key(key.c_str(), v); }catch(std::exception& e){ trc = 1; } t << "rc=" << trc;
       }else{
         double v = atof(w[5].c_str()); c << "rc=" << splinetable_write_key(&H[h], SPLINETABLE_DOUBLE, key.c_str(), &v);
-        int trc = 0; try{ T[h]->write_key(key.c_str(), v); }catch(std::exception& e){ trc = 1; } t << "rc=" << trc;
+        int trc = 0; try{ if(!T[h]) trc = 1; else T[h]->write_key(key.c_str(), v); }catch(std::exception& e){ trc = 1; } t << "rc=" << trc;
       }
     }
     else if(kind == "acc"){       // every accessor, every dimension
@@ -257,7 +257,7 @@ static int run_cases(const char* path, long skip){
       int dim = atoi(w[3].c_str()); size_t nk = atoi(w[4].c_str());
       std::vector<double> kn(nk ? nk : 1); for(size_t i = 0; i < nk; i++) kn[i] = atof(w[5 + i].c_str());
       c << "rc=" << splinetable_convolve(&H[h], dim, kn.data(), nk);
-      int trc = 0; try{ T[h]->convolve(dim, kn.data(), nk); }catch(std::exception& e){ trc = 1; } t << "rc=" << trc;
+      int trc = 0; try{ if(!T[h]) trc = 1; else T[h]->convolve(dim, kn.data(), nk); }catch(std::exception& e){ trc = 1; } t << "rc=" << trc;
     }
     else if(kind == "readmem"){   // readmem h path
       std::vector<char> b = slurp(w[3]); std::vector<char> b2 = b;
@@ -268,7 +268,7 @@ static int run_cases(const char* path, long skip){
     else if(kind == "writemem"){  // writemem h b
       int b = atoi(w[3].c_str());
       c << "rc=" << writesplinefitstable_mem(&B[b], &H[h]);
-      int trc = 0; try{ BT[b] = T[h]->write_fits_mem(); }catch(std::exception& e){ trc = 1; } t << "rc=" << trc;
+      int trc = 0; try{ if(!T[h]) trc = 1; else BT[b] = T[h]->write_fits_mem(); }catch(std::exception& e){ trc = 1; } t << "rc=" << trc;
       c << " buf=" << (B[b].data ? std::to_string(B[b].size) + ":" + hx(fnv(1469598103934665603ULL, B[b].data, B[b].size)) : std::string("NULL"));
       t << " buf=" << (BT[b].first ? std::to_string(BT[b].second) + ":" + hx(fnv(1469598103934665603ULL, BT[b].first, BT[b].second)) : std::string("NULL"));
     }
@@ -322,7 +322,7 @@ static int run_cases(const char* path, long skip){
       std::vector<size_t> pc = p; pc.resize(std::max<size_t>(pc.size(), nd ? nd : 1), 0);
       std::vector<size_t> pt(pc.begin(), pc.begin() + nd);
       c << "rc=" << splinetable_permute(&H[h], pc.data());
-      int trc = 0; try{ T[h]->permuteDimensions(pt); }catch(std::exception& e){ trc = 1; } t << "rc=" << trc;
+      int trc = 0; try{ if(!T[h]) trc = 1; else T[h]->permuteDimensions(pt); }catch(std::exception& e){ trc = 1; } t << "rc=" << trc;
     }
     else if(kind == "nullarg"){   // nullarg h <function> <argument>: a NULL pointer for that argument; the wrapper must refuse
       std::string fn = w[3], a = w[4]; int rc = -99; bool isptr = false; const void* pr = (const void*)1;
